@@ -9,12 +9,14 @@
    re-lex as itself (names are identifiers that are not keyword-prefixed, a function name is followed by "(", a keyword
    stands between non-word characters, other characters start no term).  Theorems hold for EVERY such list, of any length.
    That the equations the parser produces are of this form is checked per case by the correspondence K_domain
-   (harness/props/C20.py), and proved for the renderings of all Eval statements (C20_rendered_statements_wf).
+   (harness/props/C20.py), and proved for the renderings of all Eval statements (C20_rendered_statements_wf) and for source
+   statements NAME[k] = rhs in the documented syntax with any layout of terms, blank runs and continuation lines under the
+   decidable source-side conditions dq_ok_ws + sep_ok (C20_source_any_blanks_wf; whole scripts: C20_source_any_blanks_script_graph).
    Evaluation semantics: Eval.eval_expr (generic in the number type and in every arithmetic operation). *)
 From Coq Require Import String Ascii List Bool Arith ZArith.
 Import ListNotations.
 Require Import PyBase PyStr Lex Symbols ParseEq ParseModel GLex GNorm Graph GraphFacts GraphTheorems GraphEvalFacts GraphEvalWf GraphExamples GTokenise GTokeniseFacts.
-Require Import Denorm GraphParseFacts GraphScriptFacts GraphSrcWf GraphSrcGraph GraphParseExamples LayoutExamples.
+Require Import Denorm DenormFacts GraphParseFacts GraphScriptFacts GraphSrcWf GraphSrcGraph GraphTokWf GraphSrcGraphWs GraphParseExamples LayoutExamples.
 Require Import Split Merge ParseContribFacts.
 Require Import Solver Eval EvalFacts.
 Open Scope string_scope.
@@ -298,6 +300,45 @@ Theorem C20_source_script_satisfiable :
     end.
 Proof. exact ex_src_script_hyps. Qed.
 Print Assumptions C20_source_script_satisfiable.
+
+(* ---- the same with ANY runs of blanks and continuation lines: dq_ok_ws instead of dq_ok (no requirement that the statement is
+   already in normal spacing).  The parser's normaliser acts on the token list as DenormFacts.nrm (blank runs collapsed, blanks
+   after "(" and before ")" dropped); nrm_q q is q with both sides normalised, and neq_text (nrm_q q) is the equation text the
+   parser stores (DenormFacts.parse_denorm_general).  GraphTokWf shows that the three passes keep the token list lexable. *)
+Theorem C20_source_any_blanks_wf : forall (lay : layout) (q : neq),
+  dq_ok_ws lay q = true -> sep_ok lay (nrhs q) = true -> neq_wf (nrm_q q) = true.
+Proof. exact dq_ok_ws_neq_wf. Qed.
+Print Assumptions C20_source_any_blanks_wf.
+Theorem C20_source_any_blanks_statement_graph : forall (lay : layout) (y : string) (ky : Z) (ws r : list ntok) (syms : list symbol),
+  dq_ok_ws lay (mkNeq (NTerm y (IInt ky) :: ws) r) = true -> sep_ok lay r = true -> no_function_named y r = true ->
+  parse_equation_M (denorm_text lay (mkNeq (NTerm y (IInt ky) :: ws) r)) = POk syms ->
+  symbols_to_graph_M syms = Ret (graph_of [nrm_q (mkNeq (NTerm y (IInt ky) :: ws) r)]) /\
+  neq_wf (nrm_q (mkNeq (NTerm y (IInt ky) :: ws) r)) = true.
+Proof. exact source_statement_graph_ws. Qed.
+Print Assumptions C20_source_any_blanks_statement_graph.
+(* the edges are read off the SOURCE token lists: the normaliser keeps the terms *)
+Theorem C20_source_any_blanks_script_graph : forall (lay : layout) (qs : list neq) (s : string) (syms : list symbol),
+  Forall (stmt_src_ws lay) qs ->
+  split_M s = (map (denorm_text lay) qs, None) ->
+  parse_model_nocheck s = POk syms ->
+  exists g, symbols_to_graph_M syms = Ret g /\
+    forall x n, is_edge g x n = true <-> exists q, In q qs /\ In n (nids (nlhs q)) /\ In x (nids (nrhs q)).
+Proof. exact source_script_graph_ws. Qed.
+Print Assumptions C20_source_any_blanks_script_graph.
+Theorem C20_source_any_blanks_satisfiable :
+  ex_ws_script = "Y  =  X[ -1 ]  + max( Z ," ++ nl_s ++ "  { a} )" ++ nl_s ++ "Z   = Y  <  max( X[ +1 ] ) if  Y else 1" /\
+  dq_ok ex_src_lay ex_wq1 = false /\ dq_ok ex_src_lay ex_wq2 = false /\
+  Forall (stmt_src_ws ex_src_lay) [ex_wq1; ex_wq2] /\
+  split_M ex_ws_script = (map (denorm_text ex_src_lay) [ex_wq1; ex_wq2], None) /\
+  neq_text (nrm_q ex_wq1) = "Y[t] = X[t-1] + max(Z[t] , a[t])" /\
+  neq_text (nrm_q ex_wq2) = "Z[t] = Y[t] < max(X[t+1]) if Y[t] else 1" /\
+  exists syms, parse_model_nocheck ex_ws_script = POk syms /\
+    match symbols_to_graph_M syms with
+    | Ret g => in_edges g "Y[t]" = ["X[t-1]"; "max"; "Z[t]"; "a[t]"] /\ in_edges g "Z[t]" = ["Y[t]"; "max"; "X[t+1]"; "if"; "else"]
+    | Raise _ => False
+    end.
+Proof. exact ex_ws_script_hyps. Qed.
+Print Assumptions C20_source_any_blanks_satisfiable.
 
 (* ---- hypotheses are satisfiable; what does not hold of the code as it is ---- *)
 Theorem C20_hypotheses_satisfiable :
